@@ -395,6 +395,9 @@ type c07Outcome struct {
 	// first packet, stamped with its clock at that moment: the window is about the server clock when the packet is
 	// judged, not when the connection was accepted
 	HoldMs int `json:",omitempty"`
+	// Withdrawn (user "ok" with Prior): the user connected while authorised and still has that session (another session
+	// id) when the administrator withdraws the authorisation - noup, nodown, expired, deleted; then the probe arrives
+	Withdrawn string `json:",omitempty"`
 }
 
 var c07AdminUID = []byte("c07-admin-user!!")
@@ -529,6 +532,9 @@ func c07Inner(c c07Outcome) (vk.Result, error) {
 			return res, fmt.Errorf("harness: %v", perr)
 		}
 		pauth.SessionId = c.Sid
+		if c.Withdrawn != "" {
+			pauth.SessionId = c.Sid ^ 0x5a5a
+		}
 		ptr := premote.Transport.CreateTransport()
 		pconn, _ := dialer.Dial("tcp", "x")
 		pch := make(chan hs, 1)
@@ -545,6 +551,19 @@ func c07Inner(c c07Outcome) (vk.Result, error) {
 		redirConns, redirGot = 0, nil
 		mu.Unlock()
 		defer pconn.Close()
+		if c.User == "ok" {
+			uid := c07UserUID("ok")
+			switch c.Withdrawn {
+			case "noup":
+				mgr.WriteUserInfo(usermanager.UserInfo{UID: uid, UpCredit: usermanager.JustInt64(0)})
+			case "nodown":
+				mgr.WriteUserInfo(usermanager.UserInfo{UID: uid, DownCredit: usermanager.JustInt64(-3)})
+			case "expired":
+				mgr.WriteUserInfo(usermanager.UserInfo{UID: uid, ExpiryTime: usermanager.JustInt64(time.Now().Unix() - 1)})
+			case "deleted":
+				mgr.DeleteUser(uid)
+			}
+		}
 	}
 	tr := remote.Transport.CreateTransport()
 	conn, _ := dialer.Dial("tcp", "x")
@@ -568,6 +587,10 @@ func c07Inner(c c07Outcome) (vk.Result, error) {
 	}
 	tsOK := c.OffsetMs > -179000 && c.OffsetMs < 179000
 	userOK := c.User == "bypass" || c.User == "admin" || c.User == "ok"
+	if c.User == "ok" && c.Prior && c.Withdrawn != "" {
+		userOK = false
+		res.Labels = append(res.Labels, "authorisation-withdrawn-while-a-session-is-live")
+	}
 	isAdminSession := c.User == "admin" && c.Sid == 0
 	want := !c.WrongKey && tsOK && userOK && (c.Method == "served" || isAdminSession)
 	mu.Lock()
@@ -576,7 +599,7 @@ func c07Inner(c c07Outcome) (vk.Result, error) {
 	mu.Unlock()
 	label := fmt.Sprintf("user=%s", c.User)
 	res.Labels = append(res.Labels, label, "transport="+strings.ToLower(c.Transport))
-	res.Key = fmt.Sprintf("%s/%v/%s/%v/%s/%v/%v/%v/%v", c.User, c.Sid == 0, c.Method, c.WrongKey, strings.ToLower(c.Transport), c.OffsetMs, c.AdminReq, c.Prior, c.HoldMs)
+	res.Key = fmt.Sprintf("%s/%v/%s/%v/%s/%v/%v/%v/%v/%s", c.User, c.Sid == 0, c.Method, c.WrongKey, strings.ToLower(c.Transport), c.OffsetMs, c.AdminReq, c.Prior, c.HoldMs, c.Withdrawn)
 	if c.Prior {
 		res.Labels = append(res.Labels, "session-already-exists")
 	}
@@ -591,6 +614,13 @@ func c07Inner(c c07Outcome) (vk.Result, error) {
 	} else {
 		if replied {
 			return res, vk.ViolateSig("invalid-accepted", "handshake reply sent although the first packet must not be accepted (user=%s method=%s wrongKey=%v clock offset=%v sid=%d)", c.User, c.Method, c.WrongKey, offset, c.Sid)
+		}
+		if c.User == "ok" && c.Prior && c.Withdrawn != "" && !redirected {
+			// an active user refused at session admission: the server drops the attempt without a reply instead of
+			// relaying it (C09 allows "or just closes"); what matters here is that it was not accepted
+			res.Labels = append(res.Labels, "refused-without-reply")
+			conn.Close()
+			return res, nil
 		}
 		if !redirected || len(rg) == 0 {
 			return res, vk.ViolateSig("not-redirected", "an unacceptable first packet (user=%s method=%s wrongKey=%v offset=%v) was not handed to the redirect target", c.User, c.Method, c.WrongKey, offset)
@@ -708,6 +738,10 @@ func TestVerif_C07_Outcome(t *testing.T) {
 			Browser:   rapid.SampledFrom([]string{"chrome", "firefox", "safari"}).Draw(rt, "browser"),
 		}
 		c.Prior = rapid.IntRange(0, 2).Draw(rt, "prior") == 0
+		if c.User == "ok" && rapid.Bool().Draw(rt, "withdraw") {
+			c.Prior = true
+			c.Withdrawn = rapid.SampledFrom([]string{"noup", "nodown", "expired", "deleted"}).Draw(rt, "withdrawn")
+		}
 		return c
 	}, func(c c07Outcome) (vk.Result, error) {
 		var res vk.Result
